@@ -25,7 +25,11 @@ void VM<FO>::do_log(int tid, int opi, Op const& op)
   int result = -3;
   int kind = 0;
 
-  if (fb & FB_FORMAT_MISMATCH)
+  if (fb & FB_BEFORE_WRITE_THROW)
+  {
+    site = 3; // the JSON line of this site names the statement ("sid")
+  }
+  else if (fb & FB_FORMAT_MISMATCH)
   {
     site = 6;
   }
@@ -138,9 +142,14 @@ void VM<FO>::do_log(int tid, int opi, Op const& op)
       // F4: a run-time built metadata whose format string does not match the arguments
       static quill::MacroMetadata const md_bad{"vm_sites.h:1", "vm", "#{}# {:d} {:q}", nullptr, quill::LogLevel::Error,
                                                quill::MacroMetadata::Event::Log};
+      // ... or one with placeholders and no argument at all (nothing to decode: the backend must not format it with
+      // whatever the previous statement left in its argument store)
+      static quill::MacroMetadata const md_noargs{"vm_sites.h:2", "vm", "zero {} {}", nullptr, quill::LogLevel::Error,
+                                                  quill::MacroMetadata::Event::Log};
       if (lg->template should_log_statement<quill::LogLevel::Error>())
       {
-        result = lg->template log_statement<false, false>(quill::LogLevel::None, &md_bad, id, pl, pl) ? 1 : 0;
+        result = (seed & 1) ? (lg->template log_statement<false, false>(quill::LogLevel::None, &md_noargs) ? 1 : 0)
+                            : (lg->template log_statement<false, false>(quill::LogLevel::None, &md_bad, id, pl, pl) ? 1 : 0);
         if (result == 1)
         {
           ++faults_fired[4];
